@@ -6,8 +6,10 @@ REQUIRED = ["CifModel.C04_inv_init", "CifModel.C04_inv_sql", "CifModel.C04_inv_s
             "CifModel.remove_last_item_removes_loop", "CifModel.scalar_category_cannot_be_given",
             "CifModel.scalar_category_cannot_be_taken", "CifModel.destroy_removes_subtree_only", "CifModel.cifs_independent", "CifModel.names_returned_as_created_frame",
             "CifModel.names_returned_as_created_items", "CifModel.set_value_new_item_goes_to_scalar", "CifModel.C04_refines_get_block",
-            "CifModel.C04_refines_create_block", "CifModel.C04_refines_all_blocks", "CifModel.C04_refines_get_frame", "CifModel.C04_refines_create_loop", "CifModel.C04_refines_add_packet", "CifModel.C04_refines_get_value", "CifModel.C04_refines_set_value", "CifModel.C04_refines_remove_item", "CifModel.C04_refines_destroy_loop", "CifModel.C04_refines_set_category", "CifModel.C04_refines_set_value_new", "CifModel.C04_refines_add_item", "CifModel.C04_refines_prune", "CifModel.C04_get_value_column", "CifModel.C04_add_packet_is_spec_packet",
-            "CifModel.C04_cex_F30", "CifModel.C04_cex_F34_pinned",
+            "CifModel.C04_refines_create_block", "CifModel.C04_refines_all_blocks", "CifModel.C04_refines_get_frame", "CifModel.C04_refines_create_loop", "CifModel.C04_refines_add_packet", "CifModel.C04_add_packet_total", "CifModel.C04_refines_get_value", "CifModel.C04_refines_set_value", "CifModel.C04_refines_remove_item", "CifModel.C04_refines_destroy_loop", "CifModel.C04_refines_set_category", "CifModel.C04_refines_set_value_new", "CifModel.C04_refines_add_item", "CifModel.C04_refines_prune", "CifModel.C04_get_value_column", "CifModel.C04_add_packet_is_spec_packet",
+            "CifModel.C04_cex_F30_pinned", "CifModel.C04_cex_F34_pinned",
+            "CifModel.C04_packets_total_init", "CifModel.C04_packets_total_step", "CifModel.C04_packets_total", "CifModel.C04_packets_total_reads",
+            "CifModel.C04_code_set_category", "CifModel.C04_code_add_packet", "CifModel.C04_code_remove_item",
             "CifModel.Store.schema_tables_link", "CifModel.Store.schema_triggers_link", "CifModel.Store.schema_sql_link",
             "CifModel.Store.schema_messages_link", "CifModel.Store.C05_paths_link"]
 GEN = ["ErrCodes", "Schema"]
@@ -34,7 +36,7 @@ PARTIAL = [
     "unconditional invariant of the model — see notes — but evaluated by the model driver on every state of every generated history), set_value of an "
     "existing item, set_value of a new item (add_item count + exactly one new packet when the scalar loop had none), add_item, set_category, prune, "
     "loop_destroy / remove_item of the last item (no extra hypothesis), remove_item with items left and the query get_value (under completeness of "
-    "the packets, which F30 breaks: C04_cex_F30). Not proved: create_frame, destroy of blocks/frames (need fuel-independence of absContainer), "
+    "the packets — since fix e266ec6 every packet add_packet makes is total: C04_add_packet_total; the pinned behaviour: C04_cex_F30_pinned). Not proved: create_frame, destroy of blocks/frames (need fuel-independence of absContainer), "
     "agreement of the FAILURE codes with the Spec functions, one specStep over whole histories",
     "set_value_all_packets_or_new_scalar: the new-scalar half is proved only as 'goes through add_scalar' (set_value_new_item_goes_to_scalar)",
 ]
@@ -42,6 +44,6 @@ LEVEL_TEXT = ("Proof (partial where stated): an executable relational model of t
               "pktitr.c as the C's sequence of SQL statements and transaction macros) with a machine-checked invariant over ALL API histories "
               "by induction over the op list; schema facts re-extracted from the sources on every run and re-checked by kernel `decide`; "
               "model and real library compared on ~1500 (quick) / 12000 (thorough) random histories with a dump after every op.")
-LEVEL_NOTE = ("Refinement to the documented data model is proved for blocks/frames, stated but not proved for loops (open finding F30 is a genuine counterexample there). Trusted: Lean kernel, the schema translator, SQLite's enforcement of the schema, "
+LEVEL_NOTE = ("Refinement to the documented data model is proved for blocks/frames, proved op by op for loops (see PARTIAL); both findings of this property (F30, F34) are repaired in /repo. Trusted: Lean kernel, the schema translator, SQLite's enforcement of the schema, "
               "the executor/generator/oracle.")
 TECHNIQUE = "Lean 4 proof (invariant by induction over API histories) about an executable relational model tied to the sources by translated schema facts and differential execution"
